@@ -595,3 +595,73 @@ func vh_C12_L5_entry_limits_fit_length_field() {
 	vassert(!abort && err == nil, "an empty I-FORWARD-TSN is valid")
 	vcover("end")
 }
+
+// C12.L5: packets emitted during loss recovery are well formed too. The head of a flight is
+// lost while its tail is acknowledged by gap blocks; fast retransmission, RACK, the tail-loss
+// probe and T3 all choose what to send again: every packet decodes locally and every DATA
+// chunk carries user data (= C06.L3d, whose every emitted packet goes through vDecode).
+func vh_C12_L5_recovery_packets_are_well_formed() { vh_C06_L3_transmission_count_fast_retransmit() }
+
+// C12.L2b: a HEARTBEAT-ACK whose length includes zero bytes behind its information
+// parameter (the decoder accepts that) means the same alone and in front of another chunk.
+// Information of 0, 3, 4 or 8 arbitrary bytes, 0..8 trailing zero bytes inside the chunk's
+// own length, alone or followed by a SACK: the packet decodes, the information is what was
+// sent, and the chunk behind it is found where the first chunk's own length says it starts.
+func vh_C12_L2_heartbeat_ack_with_trailing_zeros_bundled() {
+	l := []int{0, 3, 4, 8}[vPick(4)]
+	z := vPick(9)
+	withSack := vPick(2) == 1
+	info := nondetBytes(l)
+	vl := 4 + l + z // chunk value: parameter header, information, trailing zeros
+	raw := make([]byte, packetHeaderSize)
+	raw[0], raw[1], raw[2], raw[3] = 0x13, 0x88, 0x13, 0x88
+	isAck := vPick(2) == 1 // the same for the HEARTBEAT request itself
+	typ := ctHeartbeat
+	if isAck {
+		typ = ctHeartbeatAck
+	}
+	raw = append(raw, byte(typ), 0, byte((chunkHeaderSize+vl)>>8), byte(chunkHeaderSize+vl))
+	raw = append(raw, 0, byte(heartbeatInfo), 0, byte(4+l))
+	raw = append(raw, info...)
+	raw = append(raw, make([]byte, z+getPadding(vl))...)
+	cum := nondetU32()
+	if withSack {
+		raw = append(raw, byte(ctSack), 0, 0, 16, byte(cum>>24), byte(cum>>16), byte(cum>>8), byte(cum), 0, 0, 1, 0, 0, 0, 0, 0)
+	}
+	vFixChecksum(raw)
+	p := &packet{}
+	err := p.unmarshal(false, raw)
+	vassert(err == nil, "a HEARTBEAT / HEARTBEAT-ACK the decoder accepts on its own is accepted inside a packet")
+	if err != nil {
+		return
+	}
+	want := 1
+	if withSack {
+		want = 2
+	}
+	vassert(len(p.chunks) == want, "every chunk of the packet is found")
+	var params []param
+	if isAck {
+		ack, ok := p.chunks[0].(*chunkHeartbeatAck)
+		vassert(ok, "a HEARTBEAT-ACK")
+		if ok {
+			params = ack.params
+		}
+	} else {
+		hb, ok := p.chunks[0].(*chunkHeartbeat)
+		vassert(ok, "a HEARTBEAT")
+		if ok {
+			params = hb.params
+		}
+	}
+	vassert(len(params) == 1, "the chunk carries its parameter")
+	if len(params) == 1 {
+		hi, isInfo := params[0].(*paramHeartbeatInfo)
+		vassert(isInfo && vBytesEq(hi.heartbeatInformation, info), "the information is what was sent")
+	}
+	if withSack && len(p.chunks) == 2 {
+		sack, isSack := p.chunks[1].(*chunkSelectiveAck)
+		vassert(isSack && sack.cumulativeTSNAck == cum && sack.advertisedReceiverWindowCredit == 256, "the chunk behind it decodes to what was sent")
+	}
+	vcover("end")
+}
